@@ -17,6 +17,7 @@ import ClarabelProofs.Lemmas.NonsymGenPowHess
 import ClarabelProofs.Lemmas.NonsymGenPowScaling
 import ClarabelProofs.Lemmas.NonsymExpStart
 import ClarabelProofs.Lemmas.NonsymGenPowNewton
+import ClarabelProofs.Lemmas.ConesGenPowConvex
 
 namespace Clarabel.C14
 open Clarabel
@@ -1016,7 +1017,8 @@ moves by steps returned by `step_length`, whose backtracking search accepts an e
 `is_dual_feasible` (which does test `u > 0`) holds there; every point accepted by `is_dual_feasible`
 passes the `ζ` test, so the next `update_scaling` is accepted *and* the point is in `int K*`.
 (The solver then scales the step by `max_step_fraction ≤ 1`; the open cone is convex, so the actual
-iterate lies between two interior points — that last step is not formalised.) -/
+iterate lies between two interior points — formalised in round 4:
+`genpow_linesearch_keeps_interior_below`, from `genpow_cones_convex`, at the end of this file.) -/
 theorem genpow_linesearch_keeps_interior (al dz ds z s : Array ℝ) (step aMin aMax : ℝ) (fuel : Nat)
     (ha : ∀ a ∈ al.toList, 0 < a) (az as : ℝ)
     (h : GenPow.stepLength al dz ds z s step aMin aMax fuel = .ok (az, as)) (hne : az ≠ 0)
@@ -1113,5 +1115,73 @@ theorem exp_wright_omega_structure {z : ℝ} (hz : 0 ≤ z) :
 example : Exp.wrightOmega (1 : ℝ) = .ok 1 := Exp.wrightOmega_one
 
 
+
+end Clarabel.C14
+
+/-! ## Round 4: the open generalised power cone and its dual are convex -/
+namespace Clarabel.C14
+open Clarabel
+
+/-- [R] (all dimensions) **`int K` and `int K*` of the generalised power cone are convex**: for
+positive exponents summing to one, a convex combination `μ·a + ν·b` (`μ, ν ≥ 0`, `μ + ν = 1`,
+coordinate-wise on the `u`- and the `w`-part) of two points of the open cone
+`{u > 0, ‖w‖² < Π uᵢ^{2αᵢ}}` lies in it, and the same for the open dual cone
+`{u > 0, ‖w‖² < Π (uᵢ/αᵢ)^{2αᵢ}}` — the sets `is_primal_feasible` / `is_dual_feasible` decide
+(`genpow_membership`).  From the concavity of the weighted geometric mean `u ↦ Π uᵢ^{αᵢ}` on the
+positive orthant (weighted AM–GM) and the triangle inequality of `‖·‖₂` (Cauchy–Schwarz). -/
+theorem genpow_cones_convex (al ua wa ub wb : List ℝ) (hal : ∀ a ∈ al, 0 < a) (hsum : al.sum = 1)
+    (hla : al.length = ua.length) (hlb : ub.length = ua.length) (hlw : wb.length = wa.length)
+    {μ ν : ℝ} (hμ : 0 ≤ μ) (hν : 0 ≤ ν) (h1 : μ + ν = 1) :
+    (GenPowPrimalInterior al ua wa → GenPowPrimalInterior al ub wb →
+      GenPowPrimalInterior al ((ua.zip ub).map (fun p => μ * p.1 + ν * p.2))
+        ((wa.zip wb).map (fun p => μ * p.1 + ν * p.2))) ∧
+    (GenPowDualInterior al ua wa → GenPowDualInterior al ub wb →
+      GenPowDualInterior al ((ua.zip ub).map (fun p => μ * p.1 + ν * p.2))
+        ((wa.zip wb).map (fun p => μ * p.1 + ν * p.2))) :=
+  ⟨fun hA hB => GenPowConvex.primal_convex al ua wa ub wb hal hsum hla hlb hlw hA hB hμ hν h1,
+    fun hA hB => GenPowConvex.dual_convex al ua wa ub wb hal hsum hla hlb hlw hA hB hμ hν h1⟩
+
+/-- non-vacuity: `α = (½, ½)`; `(1, 1 | 0)` and `(4, 1 | 1)` are interior to the primal cone,
+`(1, 1 | 1)` to the dual cone -/
+example : (∀ a ∈ [(1 / 2 : ℝ), 1 / 2], 0 < a) ∧ [(1 / 2 : ℝ), 1 / 2].sum = 1 ∧
+    GenPowPrimalInterior [1 / 2, 1 / 2] [1, 1] [0] ∧ GenPowPrimalInterior [1 / 2, 1 / 2] [4, 1] [1] ∧
+    GenPowDualInterior [1 / 2, 1 / 2] [1, 1] [1] := by
+  refine ⟨by intro a ha; simp at ha; subst ha; norm_num, by norm_num,
+    ⟨by simp, by norm_num⟩, ⟨by simp, by norm_num⟩, ⟨by simp, by norm_num⟩⟩
+
+/-- [R] closes the gap recorded at `genpow_linesearch_keeps_interior` (the convexity step behind
+`max_step_fraction`).  For positive exponents summing to one, interior starting points
+(`is_dual_feasible(z)`, `is_primal_feasible(s)` true) and directions of the same length, after
+`step_length` returned `(αz, αs)` **every** shorter step — in particular the step the solver really
+takes, `max_step_fraction·min(αz, αs, …) ≤ αz, αs` — keeps the iterate inside: for all
+`t ∈ [0, αz]`, `is_dual_feasible(z + t·dz)` holds and the next `update_scaling` at `z + t·dz` is
+accepted and stores that point (so the `u > 0` test missing in `update_scaling` is never needed
+inside `solve()`); for all `t ∈ [0, αs]`, `is_primal_feasible(s + t·ds)` holds.  Also covers the
+failure value `αz = 0` (no step). -/
+theorem genpow_linesearch_keeps_interior_below (al dz ds z s : Array ℝ) (step aMin aMax : ℝ)
+    (fuel : Nat) (ha : ∀ a ∈ al.toList, 0 < a) (hsum : al.toList.sum = 1) (az as : ℝ)
+    (h : GenPow.stepLength al dz ds z s step aMin aMax fuel = .ok (az, as))
+    (hdz : dz.size = z.size) (hds : ds.size = s.size)
+    (hz : GenPow.isDualFeasible al z = .ok true) (hs : GenPow.isPrimalFeasible al s = .ok true)
+    (st : GenPow.State ℝ) (mu : ℝ) :
+    (∀ t, 0 ≤ t → t ≤ az → GenPow.isDualFeasible al (Vec.waxpby 1 z t dz) = .ok true ∧
+      ∃ D, GenPow.updateScaling al st (Vec.waxpby 1 z t dz) mu
+        = .ok (true, ⟨D, mu, Vec.waxpby 1 z t dz⟩)) ∧
+    (∀ t, 0 ≤ t → t ≤ as → GenPow.isPrimalFeasible al (Vec.waxpby 1 s t ds) = .ok true) := by
+  obtain ⟨k1, k2⟩ := GenPowConvex.stepLength_segments al dz ds z s step aMin aMax fuel ha hsum az as h
+    hdz hds hz hs
+  exact ⟨fun t ht0 ht => ⟨k1 t ht0 ht,
+    GenPow.updateScaling_of_dualFeasible al _ ha st mu (k1 t ht0 ht)⟩, k2⟩
+
+/-- non-vacuity: `α = (½, ½)`, `z = (1, 1, 1)`, `s = (1, 1, 0)` pass the membership tests -/
+example : GenPow.isDualFeasible (#[1 / 2, 1 / 2] : Array ℝ) #[1, 1, 1] = .ok true ∧
+    GenPow.isPrimalFeasible (#[1 / 2, 1 / 2] : Array ℝ) #[1, 1, 0] = .ok true := by
+  constructor
+  · exact (genpow_membership [1 / 2, 1 / 2] [1, 1] [1] rfl
+      (by intro a ha; simp at ha; subst ha; norm_num)).2.mpr
+      ⟨by simp, by norm_num⟩
+  · exact (genpow_membership [1 / 2, 1 / 2] [1, 1] [0] rfl
+      (by intro a ha; simp at ha; subst ha; norm_num)).1.mpr
+      ⟨by simp, by norm_num⟩
 
 end Clarabel.C14
